@@ -722,4 +722,157 @@ theorem cont_placeholder (root1 : Val) (P : Pos) (c : Cls) (ys : List Val) (tail
         e1, hwrite]
       simpa [chain, kvSet] using hset
 
+/-! ### `__setitem__` on the element-creating steps -/
+
+theorem setItem_of_find {cls : Cls} {kvs : List (Str × Val)} {xp : Str} {toks nf : List Str} {root0 : Val} {r : Res}
+    {v t' : Val} {fuel : Nat}
+    (hq : startsWith xp ['?'] = false) (hpc : hasPathChar xp = true) (htok : tokenize xp = toks)
+    (hfind : findD fuel (.dict cls kvs) [] false true toks (.at []) true slash = .ok (root0, r))
+    (hnf : r.notFound = some nf) (hne : nf ≠ []) (hadd : AddStores root0 r.parent r.nameIdx nf v t') :
+    setItem fuel (.dict cls kvs) xp v = (t', .ok ()) := by
+  obtain ⟨root', par', ni', ha, hst⟩ := hadd
+  unfold setItem
+  simp only [hq, Bool.false_and, Bool.false_eq_true, if_false, hpc, if_true, htok, hfind, hnf,
+    isEmpty_false_of_ne hne, Bool.not_false, ha, hst]
+
+/-- `[new()] / tail` entered on a list: exactly one element is appended -/
+theorem addStores_new_on_list (root0 : Val) (P : Pos) (c0 : Cls) (xs0 : List Val) (tail : List Str) (v t' : Val)
+    (hP0 : getAt root0 P = some (.list c0 xs0)) (ht : ∀ x ∈ tail, PlainKey x)
+    (hset : setAt root0 P (.list c0 (xs0 ++ [chain tail v])) = some t') :
+    AddStores root0 (.at P) Option.none (bracket sNew :: tail) v t' := by
+  obtain ⟨root1, hs1⟩ := setAt_isSome P root0 _ (.list c0 (xs0 ++ [Val.none])) hP0
+  refine addStores_step (addStep_new_list root0 root1 P c0 xs0 hP0 hs1) ?_
+  apply cont_placeholder root1 P c0 xs0 tail v t' (getAt_setAt_same P root0 root1 _ hs1 (fun _ _ => trivial)) ht
+  rw [setAt_overwrite P root0 root1 _ _ hs1]; exact hset
+
+/-- `[len] / tail` entered on a list of length `len` -/
+theorem addStores_len_on_list (root0 : Val) (P : Pos) (c0 : Cls) (xs0 : List Val) (tail : List Str) (v t' : Val)
+    (hP0 : getAt root0 P = some (.list c0 xs0)) (ht : ∀ x ∈ tail, PlainKey x)
+    (hset : setAt root0 P (.list c0 (xs0 ++ [chain tail v])) = some t') :
+    AddStores root0 (.at P) (some (bracket (natStr xs0.length))) (bracket (natStr xs0.length) :: tail) v t' := by
+  obtain ⟨root1, hs1⟩ := setAt_isSome P root0 _ (.list c0 (xs0 ++ [Val.none])) hP0
+  refine addStores_step (addStep_len_list root0 root1 P c0 xs0 hP0 hs1) ?_
+  apply cont_placeholder root1 P c0 xs0 tail v t' (getAt_setAt_same P root0 root1 _ hs1 (fun _ _ => trivial)) ht
+  rw [setAt_overwrite P root0 root1 _ _ hs1]; exact hset
+
+/-- what `name[new()]` makes of the value `name` holds: a list gets one more element, anything else
+becomes the first element of a new list -/
+def appendTo (old x : Val) : Val :=
+  match old with
+  | .list c xs => .list c (xs ++ [x])
+  | o => .list .n0 [o, x]
+
+theorem isList_inv {v : Val} (h : isList v = true) : ∃ c xs, v = .list c xs := by
+  cases v <;> simp [isList] at h
+  exact ⟨_, _, rfl⟩
+
+theorem appendTo_nonlist {old : Val} (h : isList old = false) (x : Val) : appendTo old x = .list .n0 [old, x] := by
+  cases old <;> simp [isList] at h <;> rfl
+
+theorem renderPos_snoc_key (q : Pos) (name : Str) :
+    slash ++ renderPos q ++ slash ++ name = slash ++ renderPos (q ++ [Seg.key name]) := by
+  simp [renderPos, renderSeg, slash]
+
+/-- **`name[new()]` on an existing name** (optionally followed by fresh names): a list gets exactly
+one more element; a non-list value is wrapped as the first element. -/
+theorem setItem_new_existing (cls : Cls) (kvs : List (Str × Val)) (q : Pos) (kcls : Cls)
+    (nkvs : List (Str × Val)) (name : Str) (old : Val) (tail : List Str) (v t' : Val) (fuel : Nat)
+    (hp : PlainPos q) (hget : getAt (.dict cls kvs) q = some (.dict kcls nkvs)) (hn : PlainKey name)
+    (hl : lookup name nkvs = some old) (ht : ∀ x ∈ tail, PlainKey x)
+    (hset : setAt (.dict cls kvs) (q ++ [.key name]) (appendTo old (chain tail v)) = some t')
+    (hf : fuel ≥ 4 * (q.length + 1)) :
+    setItem fuel (.dict cls kvs)
+      (slash ++ renderPos q ++ slash ++ (name ++ bracket sNew) ++ renderPos (tail.map Seg.key)) v = (t', .ok ()) := by
+  have hlen := mergedToks_length_le q
+  have hsplit := split_bracket name sNew (Or.inr hn) idxExpr_new
+  obtain ⟨f', e', h1, _, hwalk⟩ := find_walk (.dict cls kvs) true (spellsF_merged q _ _ hp hget)
+    ((name ++ bracket sNew) :: tail) (by simp) fuel [] slash true rfl (by omega)
+  obtain ⟨f, rfl⟩ : ∃ f, f' = f + 2 := ⟨f' - 2, by omega⟩
+  obtain ⟨fnd, hnew⟩ := find_new_step f (.dict cls kvs) false true q name tail kcls nkvs old hp hn hget hl (by omega)
+  have hP : getAt (.dict cls kvs) (q ++ [Seg.key name]) = some old := by
+    rw [getAt_snoc, hget]; simp [child, hl]
+  have hfind := hwalk
+  rw [List.nil_append, find_keyidx_step' (f + 1) _ e' true q _ _ name sNew tail kcls nkvs old hget hsplit hn.ne hn.notUp
+    hn.keyTok.notStar hl, renderPos_snoc_key, hnew] at hfind
+  refine setItem_of_find (by simp [slash, startsWith, List.append_assoc]) (by simp [hasPathChar, slash])
+    (tokenize_elem_path q hp hn cleanIdx_new tail ht) hfind rfl (by simp) ?_
+  by_cases hlist : isList old = true
+  · obtain ⟨c, xs, rfl⟩ := isList_inv hlist
+    simp only [isList, if_true]
+    exact addStores_new_on_list _ _ c xs tail v t' hP ht hset
+  · simp only [hlist]
+    -- the wrap, seen as a write at `name`
+    rw [← setAt_snoc q _ (.key name) (.list .n0 [old]) _ _ hget (by simp [setChild])]
+    obtain ⟨root0, hs0⟩ := setAt_isSome (q ++ [Seg.key name]) (.dict cls kvs) _ (.list .n0 [old]) hP
+    rw [hs0]
+    simp only [Option.getD_some]
+    apply addStores_new_on_list root0 _ .n0 [old] tail v t' (getAt_setAt_same _ _ root0 _ hs0 (fun _ _ => trivial)) ht
+    rw [setAt_overwrite _ _ root0 _ _ hs0]
+    rw [appendTo_nonlist (by simpa using hlist)] at hset
+    exact hset
+
+/-- **`name[new()]` / `name[0]` on a fresh name** (optionally followed by fresh names): the
+one-element list is created under `name`. -/
+theorem setItem_elem_fresh (cls : Cls) (kvs : List (Str × Val)) (q : Pos) (kcls : Cls)
+    (nkvs : List (Str × Val)) (name e : Str) (tail : List Str) (v t' : Val) (fuel : Nat)
+    (hp : PlainPos q) (hget : getAt (.dict cls kvs) q = some (.dict kcls nkvs)) (hn : PlainKey name)
+    (he : e = sNew ∨ e = ['0'])
+    (hl : lookup name nkvs = Option.none) (ht : ∀ x ∈ tail, PlainKey x)
+    (hset : setAt (.dict cls kvs) (q ++ [.key name]) (.list .n0 [chain tail v]) = some t')
+    (hf : fuel ≥ 2 * q.length + 1) :
+    setItem fuel (.dict cls kvs)
+      (slash ++ renderPos q ++ slash ++ (name ++ bracket e) ++ renderPos (tail.map Seg.key)) v = (t', .ok ()) := by
+  have hlen := mergedToks_length_le q
+  have hie : IdxExpr e := by
+    rcases he with rfl | rfl
+    · exact idxExpr_new
+    · exact (natStr_idxExpr 0)
+  have hce : CleanIdx e := by
+    rcases he with rfl | rfl
+    · exact cleanIdx_new
+    · exact cleanIdx_nat 0
+  have hsplit := split_bracket name e (Or.inr hn) hie
+  have hfind := find_walk_miss (.dict cls kvs) true (spellsF_merged q _ _ hp hget) (name ++ bracket e) name (.str e) tail
+    hsplit hn.ne hn.notUp hn.keyTok.notStar hl fuel [] slash true rfl (by omega)
+  rw [List.nil_append] at hfind
+  refine setItem_of_find (by simp [slash, startsWith, List.append_assoc]) (by simp [hasPathChar, slash])
+    (tokenize_elem_path q hp hn hce tail ht) hfind rfl (by simp) ?_
+  obtain ⟨root1, hs1⟩ := setAt_isSome q (.dict cls kvs) _ (.dict kcls (kvSet name (.list .n0 [Val.none]) nkvs)) hget
+  refine addStores_step (addStep_elem_first _ root1 q kcls nkvs name e hget hn he hl hs1) ?_
+  -- the creation of the list, seen as a write at `name`
+  have hs1' : setAt (.dict cls kvs) (q ++ [Seg.key name]) (.list .n0 [Val.none]) = some root1 := by
+    rw [setAt_snoc q _ (.key name) _ _ (.dict kcls (kvSet name (.list .n0 [Val.none]) nkvs)) hget (by simp [setChild])]
+    exact hs1
+  apply cont_placeholder root1 (q ++ [Seg.key name]) .n0 [] tail v t'
+    (getAt_setAt_same _ _ root1 _ hs1' (fun _ _ => trivial)) ht
+  rw [setAt_overwrite _ _ root1 _ _ hs1']
+  exact hset
+
+/-- **`name[len]` on an existing list of length `len`** (optionally followed by fresh names):
+exactly one element is appended. -/
+theorem setItem_len_existing (cls : Cls) (kvs : List (Str × Val)) (q : Pos) (kcls : Cls)
+    (nkvs : List (Str × Val)) (name : Str) (c : Cls) (xs : List Val) (tail : List Str) (v t' : Val) (fuel : Nat)
+    (hp : PlainPos q) (hget : getAt (.dict cls kvs) q = some (.dict kcls nkvs)) (hn : PlainKey name)
+    (hl : lookup name nkvs = some (.list c xs)) (ht : ∀ x ∈ tail, PlainKey x)
+    (hset : setAt (.dict cls kvs) (q ++ [.key name]) (.list c (xs ++ [chain tail v])) = some t')
+    (hf : fuel ≥ 2 * q.length + 2) :
+    setItem fuel (.dict cls kvs)
+      (slash ++ renderPos q ++ slash ++ (name ++ bracket (natStr xs.length)) ++ renderPos (tail.map Seg.key)) v
+      = (t', .ok ()) := by
+  have hlen := mergedToks_length_le q
+  have hsplit := split_bracket name (natStr xs.length) (Or.inr hn) (natStr_idxExpr _)
+  obtain ⟨f', e', h1, _, hwalk⟩ := find_walk (.dict cls kvs) true (spellsF_merged q _ _ hp hget)
+    ((name ++ bracket (natStr xs.length)) :: tail) (by simp) fuel [] slash true rfl (by omega)
+  obtain ⟨f, rfl⟩ : ∃ f, f' = f + 2 := ⟨f' - 2, by omega⟩
+  have hP : getAt (.dict cls kvs) (q ++ [Seg.key name]) = some (.list c xs) := by
+    rw [getAt_snoc, hget]; simp [child, hl]
+  have hfind := hwalk
+  rw [List.nil_append, find_keyidx_step' (f + 1) _ e' true q _ _ name _ tail kcls nkvs _ hget hsplit hn.ne hn.notUp
+    hn.keyTok.notStar hl,
+    find_idx_miss f _ false true (q ++ [Seg.key name]) _ _ _ (xs.length : Int) tail c xs hP (natStr_idxTok xs.length)
+      (Or.inl (Int.le_refl _))] at hfind
+  refine setItem_of_find (by simp [slash, startsWith, List.append_assoc]) (by simp [hasPathChar, slash])
+    (tokenize_elem_path q hp hn (cleanIdx_nat _) tail ht) hfind rfl (by simp) ?_
+  exact addStores_len_on_list _ _ c xs tail v t' hP ht hset
+
 end N0.XPath
